@@ -22,6 +22,7 @@ package main
 
 import (
 	"fmt"
+	"math/bits"
 	"sort"
 	"strings"
 	"sync"
@@ -46,6 +47,26 @@ type c19Shared struct {
 	fs              map[int][][]byte // n-bit words of every key, n = 1,2,4,8
 	sb              *sigbits.SigBits
 	fdb             []int32 // FirstDiffBits(keys), what sb holds
+	// a second shared bitmap (derived from the first: other contents, one word longer) with its indexes:
+	// function ids 100+f run bitmap function f on it, so that the goroutines of one batch call the same
+	// function with DIFFERENT arguments at the same time (hidden scratch state then shows as a wrong answer)
+	alt *c19Shared
+}
+
+func c19AltWords(words []uint64) []uint64 {
+	w2 := make([]uint64, len(words)+1)
+	for i, w := range words {
+		w2[i] = bits.Reverse64(w) ^ 0x5555555555555555>>uint(i&3)
+	}
+	w2[len(words)] = 0xf00000000000000f
+	return w2
+}
+
+func c19BuildBitmap(sh *c19Shared) {
+	sh.r64 = bitmap.IndexRank64(sh.words)
+	sh.r128 = bitmap.IndexRank128(sh.words)
+	sh.s32 = bitmap.IndexSelect32(sh.words)
+	sh.s32b, sh.r64b = bitmap.IndexSelect32R64(sh.words)
 }
 
 var c19Widths = []int{1, 2, 4, 8}
@@ -60,10 +81,9 @@ func c19BsTo(i int, s string) int32 {
 
 func c19Build(words []uint64, tsize int32, keys []string) *c19Shared {
 	sh := &c19Shared{words: words, tsize: tsize, keys: keys, fs: map[int][][]byte{}}
-	sh.r64 = bitmap.IndexRank64(words)
-	sh.r128 = bitmap.IndexRank128(words)
-	sh.s32 = bitmap.IndexSelect32(words)
-	sh.s32b, sh.r64b = bitmap.IndexSelect32R64(words)
+	c19BuildBitmap(sh)
+	sh.alt = &c19Shared{words: c19AltWords(words), tsize: tsize}
+	c19BuildBitmap(sh.alt)
 	for i, k := range keys {
 		sh.kb = append(sh.kb, []byte(k))
 		sh.bs = append(sh.bs, bitstr.New(k, 0, c19BsTo(i, k)))
@@ -80,6 +100,10 @@ func c19Build(words []uint64, tsize int32, keys []string) *c19Shared {
 func (sh *c19Shared) derived() string {
 	var b strings.Builder
 	b.WriteString(I32s(sh.r64) + I32s(sh.r128) + I32s(sh.s32) + I32s(sh.s32b) + I32s(sh.r64b))
+	if sh.alt != nil {
+		a := sh.alt
+		b.WriteString(U64s(a.words) + I32s(a.r64) + I32s(a.r128) + I32s(a.s32) + I32s(a.s32b) + I32s(a.r64b))
+	}
 	b.WriteString(ByteSlices(sh.kb) + ByteSlices(sh.bs))
 	for _, n := range c19Widths {
 		b.WriteString(ByteSlices(sh.fs[n]))
@@ -139,7 +163,11 @@ func c19Pair(a, b int32) string { return L(I32(a), I32(b)) }
 // c19Do runs one call of the REAL function on the shared inputs and renders the result.
 func c19Do(sh *c19Shared, c c19Call) string {
 	i1, i2, i3 := int32(c.p1), int32(c.p2), int32(c.p3)
-	switch c.fid {
+	fid := c.fid
+	if fid > 100 {
+		fid, sh = fid-100, sh.alt
+	}
+	switch fid {
 	case 1:
 		return c19Pair(bitmap.Rank64(sh.words, sh.r64, i1))
 	case 2:
@@ -261,7 +289,7 @@ func init() {
 				seen := make([]bool, n)
 				changed := make([]bool, n)
 				<-start
-				for r := 0; r < R; r++ {
+				for r := 0; r < R*c19RepFactor; r++ {
 					for k := 0; k < n; k++ {
 						// every goroutine walks the batch in its own order
 						idx := (k + t*7 + r*3) % n
@@ -293,12 +321,14 @@ func init() {
 // ---------------------------------------------------------------------------- generator
 
 type c19Gen struct {
-	g     *Gen
-	words []uint64
-	tsize int32
-	keys  []string
-	paths []uint64 // stored paths of the tree (AllPaths over everything)
-	ones  int
+	words2 []uint64
+	ones2  int
+	g      *Gen
+	words  []uint64
+	tsize  int32
+	keys   []string
+	paths  []uint64 // stored paths of the tree (AllPaths over everything)
+	ones   int
 }
 
 func c19Height(tsize int32) int32 { return bmtree.Height(tsize) }
@@ -337,7 +367,24 @@ func c19Keys(r *Rand, n int) []string {
 func (x *c19Gen) n() int { return 64 * len(x.words) }
 
 // one random in-domain call of function fid (ok=false: no in-domain argument exists for these inputs)
+// bitmap functions that can run on the second shared bitmap (function id + 100)
+var c19AltOK = map[int]bool{1: true, 2: true, 3: true, 4: true, 5: true, 6: true, 7: true, 8: true, 9: true,
+	11: true, 12: true, 13: true, 14: true, 15: true, 16: true, 17: true, 18: true, 24: true}
+
 func (x *c19Gen) call(fid int) (c19Call, bool) {
+	r := x.g.R
+	if c19AltOK[fid] && r.Bool() {
+		// the same generator on the second bitmap
+		y := *x
+		y.words, y.ones = x.words2, x.ones2
+		c, ok := y.callOn(fid)
+		c.fid += 100
+		return c, ok
+	}
+	return x.callOn(fid)
+}
+
+func (x *c19Gen) callOn(fid int) (c19Call, bool) {
 	r := x.g.R
 	n := x.n()
 	pos := func() int { // a bit position, biased to word boundaries
@@ -444,6 +491,13 @@ func (x *c19Gen) call(fid int) (c19Call, bool) {
 	return c, true
 }
 
+func (r *Rand) shuffleCalls(cs []c19Call) {
+	for i := len(cs) - 1; i > 0; i-- {
+		j := r.Intn(i + 1)
+		cs[i], cs[j] = cs[j], cs[i]
+	}
+}
+
 var c19Fids = func() []int {
 	var l []int
 	for f := range c19Names {
@@ -474,9 +528,9 @@ func (x *c19Gen) emit(T, R int, calls []c19Call, bucket string) {
 	listed := 0
 	for i, c := range calls {
 		txt[i] = c19CallText(c, c19Try(private, c))
-		fset[c.fid] = true
-		g.Stats["call:"+c19Names[c.fid]]++
-		if c19Listed[c.fid] {
+		fset[c.fid%100] = true
+		g.Stats["call:"+c19Names[c.fid%100]]++
+		if c19Listed[c.fid%100] {
 			listed++
 		}
 	}
@@ -522,6 +576,8 @@ func c19CopyKeys(keys []string) []string {
 func (x *c19Gen) setInputs(words []uint64, tsize int32, keys []string) {
 	x.words, x.tsize, x.keys = words, tsize, keys
 	x.ones = popcount(words)
+	x.words2 = c19AltWords(words)
+	x.ones2 = popcount(x.words2)
 	x.paths = bmtree.AllPaths(tsize, 0, 1<<63)
 }
 
@@ -663,8 +719,58 @@ func genC19(g *Gen) {
 			}
 		}
 	}
+	// the same bitmap calls on the second shared bitmap (positions 0..191), interleaved with the first
+	{
+		alt := func(f int, p ...uint64) {
+			add(f, p...)
+			all[f][len(all[f])-1].fid = f + 100
+		}
+		n2 := 64 * len(x.words2)
+		for i := 0; i < n2; i++ {
+			for _, f := range []int{1, 2, 11, 12, 13, 14} {
+				alt(f, uint64(i))
+			}
+			alt(5, uint64(i), uint64(n2))
+			alt(6, uint64(i), uint64(n2))
+			alt(7, uint64(i), uint64(n2))
+			alt(9, uint64(i/8), 8)
+		}
+		for k := 0; k < x.ones2; k++ {
+			alt(3, uint64(k))
+			alt(4, uint64(k))
+		}
+		for _, f := range []int{8, 15, 16, 17, 18, 24} {
+			alt(f)
+		}
+		for _, f := range []int{1, 2, 3, 4, 5, 6, 7, 9, 11, 12, 13, 14} {
+			r.shuffleCalls(all[f]) // a call on one bitmap next to a call on the other
+		}
+	}
+	// (0) one call of every function (on both bitmaps) in ONE batch from 16 goroutines.  The same line is the
+	// first line of corpus/C19.txt, which runs before anything else: there the concurrent run is the FIRST use of
+	// every function in the process (a lazily initialised table races / is seen half-filled).
+	{
+		var cs []c19Call
+		for _, f := range c19Fids {
+			if l := all[f]; len(l) > 0 {
+				cs = append(cs, l[len(l)/2])
+				if c19AltOK[f] {
+					for _, c := range l {
+						if c.fid > 100 {
+							cs = append(cs, c)
+							break
+						}
+					}
+				}
+			}
+		}
+		x.emit(16, 1, cs, "every-function-once")
+	}
 	for _, f := range c19Fids {
 		cs := all[f]
+		if len(cs) <= 2 && len(cs) > 0 { // the argument-free functions: both bitmaps, several times each
+			cs = append(append(append([]c19Call{}, cs...), cs...), cs...)
+		}
 		for len(cs) > 0 { // chunks of at most 64 calls
 			k := len(cs)
 			if k > 64 {
@@ -675,12 +781,12 @@ func genC19(g *Gen) {
 		}
 	}
 	g.Exhaust = append(g.Exhaust, fmt.Sprintf("c19: each of the %d function ids alone from 8 goroutines x every in-domain argument over the fixed inputs "+
-		"(2 words, bitmapSize 0b1011, 4 keys; positions 0..127, every Getw width, every key pair, every stored path, every (height<=4, index))", len(c19Fids)))
+		"(2 words, bitmapSize 0b1011, 4 keys; positions 0..127 and 0..191 of the second shared bitmap, every Getw width, every key pair, every stored path, every (height<=4, index))", len(c19Fids)))
 
 	// (2) mixed batches of all functions over random shared inputs, 8..16 goroutines.
 	// First over ascending sizes (capacity boundaries of a hidden scratch buffer are crossed in order),
 	// then random.
-	nb := g.N(1400, 12000)
+	nb := g.N(1000, 10000)
 	for b := 0; b < nb; b++ {
 		var nw, nkeys int
 		if b < 64 {
@@ -729,7 +835,7 @@ func genC19(g *Gen) {
 
 	// (3) the string alias: StrCmpUpto / CmpUpto / Cmp on keys that share the bytes of ONE backing array
 	// (substrings of one string), so a write through the alias would be seen by the neighbours.
-	for b := 0; b < g.N(150, 1500); b++ {
+	for b := 0; b < g.N(120, 1200); b++ {
 		base := string(r.Bytes(r.Range(4, 40), alphabets[r.Intn(len(alphabets))]))
 		set := map[string]bool{}
 		for i := 0; i < 12; i++ {
